@@ -188,9 +188,14 @@ def denote (P : Params) (cfg : Cfg) : Prim → Bytes → Den
       else { val := some (.flt b32), refusable := above }
     | none => .of none
   | .bool, s => .of ((boolWord s).map .bool)
-  | .time, s => .of ((P s).t.map .time)
+  -- a converter registered for the leaf type says what the text denotes
+  | .time, s => match cfg.convs.lookup timeKey with
+    | some c => .of (((P s).c.lookup c).map .time)
+    | none => .of ((P s).t.map .time)
   | .dur, s => .of ((P s).d.map .int)
-  | .opq k, s => .of (((P s).o.lookup k).map .time)
+  | .opq k, s => match cfg.convs.lookup k with
+    | some c => .of (((P s).c.lookup c).map .time)
+    | none => .of (((P s).o.lookup k).map .time)
 
 def allSome {α} : List (Option α) → Option (List α)
   | [] => some []
